@@ -89,6 +89,13 @@ def closures(tier: str) -> List[Dict[str, Any]]:
                                                 "SHORT_URL": "http://x.org/a:b"},
                            "message_defs": {"LS": {"id": 4530, "fields": {"a": "int32"}}}}}
     out.append({"files": defx.Program(longs).to_json()["files"], "kw": {"import_coredefs": False}, "label": "long string constants", "feats": []})
+    # user metadata of several kinds, in the root file and in an imported one
+    meta = {"root.yaml": {"imports": ["rig/meta.yaml"], "metadata": {"PROJECT": "reach-and-grasp", "SUBJECT_ID": 17, "GAIN": 2.5, "BLINDED": "true", "NOTES": "first session, left arm",
+                                                                     "zeta": 1, "alpha": 2, "Mid": 3},
+                          "message_defs": {"MM": {"id": 4550, "fields": {"a": "int32"}}}},
+            "rig/meta.yaml": {"metadata": {"RIG": "B", "RIG_REV": 4, "CAL_TAG": "cal-2024-01", "OPERATOR": "nn"}, "message_defs": {"MR": {"id": 4551, "fields": None}}}}
+    out.append({"files": defx.Program(meta).to_json()["files"], "kw": {"import_coredefs": False}, "label": "user metadata in two files", "feats": []})
+    out.append({"files": defx.Program(meta).to_json()["files"], "kw": {"import_coredefs": True}, "label": "user metadata in two files + core", "feats": []})
     seqs = c04.sequences("quick")[:: 40]
     prog, _ = c04.batch_program(seqs, 2)
     out.append({"files": prog.to_json()["files"], "kw": {}, "label": "packed C04-style program (diamond imports)", "feats": []})
@@ -116,6 +123,8 @@ def run_group(args) -> List[Dict[str, Any]]:
                 spec["shared_out"] = os.path.join(base, "run1", "shared_out")
                 # ... and on another day, at another time of day
                 spec["clock_shift_days"] = 3
+                # ... each one right after a compilation that was refused
+                spec["refused_before"] = True
             else:
                 # the first run asks for one output per invocation (six compilations of the closure), the second for all at once:
                 # what one back end does to the shared parser must not show in another's output
@@ -133,7 +142,7 @@ def run_group(args) -> List[Dict[str, Any]]:
             probs = []
             st0, st1 = specs[0][1][str(k)], specs[1][1][str(k)]
             # (an error text may name the file, whose directory differs between the runs by construction)
-            norm = lambda t: re.sub(r"/run[01]/", "/run/", t) if isinstance(t, str) else t
+            norm = lambda t: re.sub(r"/\S+", "<path>", t) if isinstance(t, str) else t
             if norm(st0) != norm(st1):
                 probs.append({"kind": "verdict-differs-between-runs", "run0": st0, "run1": st1})
             elif st0 != "ok":
@@ -235,6 +244,7 @@ def reused_parser_model() -> List[Dict[str, Any]]:
 
     probs = []
     d = core.scratch_dir("c16p")
+    cwd0 = os.getcwd()
     try:
         good = defx.Program({"root.yaml": {"imports": ["lib.yaml"], "message_defs": {"GM": {"id": 4530, "fields": {"s": "GS", "n": "int32"}}}},
                              "lib.yaml": {"constants": {"GK": 3}, "struct_defs": {"GS": {"fields": {"a": "double", "b": "int16[GK]"}}}}})
@@ -244,17 +254,22 @@ def reused_parser_model() -> List[Dict[str, Any]]:
         broot = bad.write(os.path.join(d, "bad"))
         ref = defx.sig_parser(defx.parse_model(groot, import_coredefs=True))
         for history in (("bad",), ("good",), ("bad", "good"), ("bad", "bad")):
+            os.chdir(d)
             pr = PP.Parser(import_coredefs=True)
             for h in list(pr.logger.handlers):
                 pr.logger.removeHandler(h)
             with contextlib.redirect_stdout(io.StringIO()), contextlib.redirect_stderr(io.StringIO()):
                 for step in history:
                     try:
-                        pr.parse(broot if step == "bad" else groot)
+                        pr.parse(os.path.relpath(broot if step == "bad" else groot, d))
                     except PP.ParserError:
                         pass
+                    except Exception as e:
+                        if step == "good":
+                            probs.append({"kind": "reused-parser-rejects-the-closure", "history": list(history[:history.index(step)]), "exc": f"{type(e).__name__}: {str(e)[:120]}"})
                 try:
-                    pr.parse(groot)
+                    # (named the way the caller named it the first time: relative to the directory the process was started in)
+                    pr.parse(os.path.relpath(groot, d))
                 except Exception as e:
                     probs.append({"kind": "reused-parser-rejects-the-closure", "history": list(history), "exc": f"{type(e).__name__}: {str(e)[:120]}"})
                     continue
@@ -267,6 +282,7 @@ def reused_parser_model() -> List[Dict[str, Any]]:
                 probs.append({"kind": "reused-parser-model-differs", "history": list(history), "section": "defs",
                               "missing": sorted(set(ref["defs"]) - set(got["defs"]))[:4], "extra": sorted(set(got["defs"]) - set(ref["defs"]))[:4]})
     finally:
+        os.chdir(cwd0)
         core.rmtree(d)
     return probs
 
